@@ -218,6 +218,11 @@ def flushResp (C : BlockCipher) (key : Bytes) (seen out : Bytes) : Resp :=
     | none => { ran := true, seen := seen, status := 500 }
     | some ct => { ran := true, seen := seen, status := 200, body := asciiBytes (b64Encode ct) }
 
+/-- `flush` when the underlying writer takes only the first `n` bytes of the encrypted reply (a write error, or a short
+write): both branches only LOG — no retry, no other write, no status — so the client sees that prefix of the base64
+ciphertext and nothing else -/
+def writtenPrefix (n : Nat) (r : Resp) : Resp := { r with body := r.body.take n }
+
 /-- `maxBytes` of rest/handler/cryptionhandler.go: the cap for a body of unknown length when no limit is configured -/
 def maxBytes : Int := 1048576
 
@@ -429,6 +434,113 @@ def parseToken {C : Type} (verify : String → Parsed C) (h : Hist) (secret prev
     else (h.increment fs.1 clock, verify fs.1)
   else (h, verify secret)
 
+/-! ### `ParseToken`'s retry structure -/
+
+/-- the two attempts of the rotation path: the SAME full verification (`verify` = `doParseToken`: signature and claims),
+first with one secret and — only when that fails — with the other -/
+def attempts {C : Type} (verify : String → Parsed C) (first second : String) : Parsed C :=
+  if (verify first).isErr then verify second else verify first
+
+/-- the calls of the attempts, typed: (kind, the secret the call is given); `err s` = `doParseToken(r, s)` failed -/
+def attemptCalls (first second : String) (err : String → Bool) : List (String × String) :=
+  ("parse", first) ::
+    (if err first then
+       ("parse", second) :: (if err second then [("return-err", "")] else [("incr", second), ("return-token", "")])
+     else [("incr", first), ("return-token", "")])
+
+/-- `TokenParser.ParseToken` as a typed call list: with a previous secret the two counters are loaded, the secret whose
+counter leads is tried first, the other one second — by a call of the same `doParseToken` — and the counter of the secret
+that verified is incremented; without a previous secret there is one call and no counter -/
+def parseTokenCalls (secret prev : String) (hasPrev currentLeads : Bool) (err : String → Bool) : List (String × String) :=
+  if hasPrev then
+    ("load", secret) :: ("load", prev) ::
+      attemptCalls (if currentLeads then secret else prev) (if currentLeads then prev else secret) err
+  else ("parse", secret) :: (if err secret then [("return-err", "")] else [("return-token", "")])
+
+/-- A WRONG variant, kept as a witness of what the property demands (the shape of seeded change C18-8): the second attempt
+re-checks only the signature (`sigOnly`) of the already decoded token and marks it valid, skipping the claims -/
+def attemptsSignatureOnlyFallback {C : Type} (verify sigOnly : String → Parsed C) (first second : String) : Parsed C :=
+  if (verify first).isErr then sigOnly second else verify first
+
+/-! ## concurrency on `TokenParser.history`: several requests inside `ParseToken` (rotation path) at once -/
+
+namespace Conc
+
+/-- where a request is inside `ParseToken` / `incrementCount`; every constructor is one access to the shared map (or the
+two verifications, which touch no shared state) -/
+inductive Pc (C : Type) where
+  | loadCur                                                  -- about to `loadCount(secret)`
+  | loadPrev (c : Nat)                                       -- about to `loadCount(prevSecret)`
+  | parse (c p : Nat)                                        -- the attempts, ordered by the two values READ
+  | incrReset (s : String) (r : Parsed C)                    -- `incrementCount`: the reset test and the clearing
+  | incrLoad (s : String) (r : Parsed C)                     -- `history.Load(secret)`
+  | incrWrite (s : String) (r : Parsed C) (present : Bool)   -- `atomic.AddUint64` on the loaded cell / `history.Store`
+  | done (r : Parsed C)
+  deriving DecidableEq
+
+/-- one request: its own verification function (its own token) and the parser's secret pair -/
+structure Req (C : Type) where
+  verify : String → Parsed C
+  secret : String
+  prev   : String
+
+structure St (C : Type) where
+  counts : List (String × Nat)     -- the shared `history`
+  pcs    : List (Pc C)             -- thread `t` is at `pcs[t]`
+
+def countOf (cs : List (String × Nat)) (s : String) : Nat :=
+  match cs.find? (·.1 = s) with
+  | some (_, n) => n
+  | none => 0
+
+/-- `atomic.AddUint64` on a cell that was loaded earlier: lost when the entry has been deleted meanwhile -/
+def bump (cs : List (String × Nat)) (s : String) : List (String × Nat) :=
+  cs.map fun kn => if kn.1 = s then (kn.1, kn.2 + 1) else kn
+
+/-- `history.Store(secret, &1)`: overwrites whatever another request stored meanwhile -/
+def store (cs : List (String × Nat)) (s : String) : List (String × Nat) :=
+  cs.filter (fun kn => kn.1 ≠ s) ++ [(s, 1)]
+
+/-- one step of one request; `expired` = what its clock reading makes of the reset test -/
+def stepPc {C : Type} (req : Req C) (expired : Bool) (cs : List (String × Nat)) : Pc C → List (String × Nat) × Pc C
+  | .loadCur => (cs, .loadPrev (countOf cs req.secret))
+  | .loadPrev c => (cs, .parse c (countOf cs req.prev))
+  | .parse c p =>
+    if (req.verify (if c > p then req.secret else req.prev)).isErr then
+      if (req.verify (if c > p then req.prev else req.secret)).isErr then (cs, .done .err)
+      else (cs, .incrReset (if c > p then req.prev else req.secret) (req.verify (if c > p then req.prev else req.secret)))
+    else (cs, .incrReset (if c > p then req.secret else req.prev) (req.verify (if c > p then req.secret else req.prev)))
+  | .incrReset s r => (if expired then [] else cs, .incrLoad s r)
+  | .incrLoad s r => (cs, .incrWrite s r (cs.any (·.1 = s)))
+  | .incrWrite s r present => (if present then bump cs s else store cs s, .done r)
+  | .done r => (cs, .done r)
+
+/-- the accesses of `incrementCount` to the shared map, in order: the clock is read, the map is cleared when the reset
+time has passed (`Range` deleting every key), the secret's cell is loaded, and it is incremented atomically when it was
+there, stored afresh otherwise — the steps `incrReset`, `incrLoad`, `incrWrite` of `stepPc` -/
+def incrAccesses (expired present : Bool) : List String :=
+  ["timex.Now()"] ++ (if expired then ["tp.history.Range [clear]"] else []) ++
+    ["tp.history.Load(secret)", if present then "atomic.AddUint64(value.(*uint64), 1)" else "tp.history.Store(secret, &count)"]
+
+/-- `loadCount`: one `Load`; the counter's value when it is there, 0 otherwise (`countOf`) -/
+def loadAccesses (present : Bool) : List String :=
+  ["tp.history.Load(secret)", if present then "return *value.(*uint64)" else "return 0"]
+
+/-- the scheduler lets thread `t` take one step -/
+def step {C : Type} (reqs : List (Req C)) (st : St C) (t : Nat) (expired : Bool) : St C :=
+  match reqs[t]?, st.pcs[t]? with
+  | some req, some pc => { counts := (stepPc req expired st.counts pc).1, pcs := st.pcs.set t (stepPc req expired st.counts pc).2 }
+  | _, _ => st
+
+/-- a schedule: which thread steps next, and what its clock reading says about the reset -/
+def run {C : Type} (reqs : List (Req C)) (st : St C) : List (Nat × Bool) → St C
+  | [] => st
+  | te :: rest => run reqs (step reqs st te.1 te.2) rest
+
+def init {C : Type} (n : Nat) (counts : List (String × Nat)) : St C := { counts := counts, pcs := List.replicate n .loadCur }
+
+end Conc
+
 /-- the registered claim names `Authorize` does not forward -/
 def standardClaims : List String := ["aud", "exp", "jti", "iat", "iss", "nbf", "sub"]
 
@@ -560,6 +672,15 @@ def readBody (limit cl : Int) (raw : Bytes) : Option Bytes :=
   if limit > 0 ∧ cl > limit then none
   else if cl > 0 then readDeclared cl raw
   else readUnknown (unknownCap limit) raw
+
+/-- whether `decryptBody` reads a body at all depends on LENGTHS only (`len` = the number of bytes `r.Body` yields):
+a declared length over a configured limit, a declared length the body does not fill, an unknown-length body over the cap
+(`limitBytes`, or `maxBytes` = 1 MiB when none is configured) are refused. NOTE: with no limit configured a DECLARED length
+is not capped at all. -/
+def readAdmits (limit cl : Int) (len : Nat) : Bool :=
+  if limit > 0 ∧ cl > limit then false
+  else if cl > 0 then decide ((len : Int) ≥ cl)
+  else decide ((len : Int) ≤ unknownCap limit)
 
 /-- `LimitCryptionHandler` written over `readBody` (proven equal to `cryptionHandler`: `cryptionHandler_eq_viaRead`) -/
 def cryptionHandlerViaRead (C : BlockCipher) (limit : Int) (key : Bytes) (cl : Int) (raw : Bytes) (inner : Inner) : Resp :=
